@@ -1228,6 +1228,13 @@ func (m *Machine) Server(out []h2wire.Frame, started []Start) []Violation {
 			if st.Hold {
 				s.Held = true
 				m.Running++
+				// §5.1.2 as the server applies it to its own work: the limit it advertises is the number of requests it
+				// serves at a time; requests beyond it wait (or are refused), whatever happened to the streams of the
+				// handlers that are still running
+				if m.cfg.MaxStreams > 0 && m.Running > m.cfg.MaxStreams {
+					vs = append(vs, Violation{Kind: "more-handlers-than-advertised-limit", State: fmt.Sprintf("%d handlers running", m.Running), Got: got,
+						Detail: fmt.Sprintf("%s: the handler started for stream %d is number %d running at once; the server advertised SETTINGS_MAX_CONCURRENT_STREAMS=%d", m.curFrame, st.Stream, m.Running, m.cfg.MaxStreams)})
+				}
 			}
 		}
 		s.Accepted = true
